@@ -53,6 +53,7 @@ type Contract struct {
 	Panics   []Clause // exceptional postconditions: condition (over old state) under which a panic is permitted
 	Modifies []Clause
 	ModAll   bool
+	Pure     bool // declared to modify no pre-existing heap location (checked)
 	NoReturn bool
 	Loops    map[int]*LoopSpec
 	AtCalls  map[string][]GhostStmt
@@ -440,6 +441,8 @@ func (sp *Specs) loadSpecFile(path, pkgPath string) error {
 			cur.ParamNames = strings.Fields(strings.ReplaceAll(rest, ",", " "))
 		case "like":
 			cur.Like = rest
+		case "pure":
+			cur.Pure = true
 		case "noreturn":
 			cur.NoReturn = true
 		case "nosafety":
